@@ -274,7 +274,8 @@ def template_match(f, template, mode='reflect', cval=0., out=None, output=None):
         ``f[i-s0:i+s0,j-s1:j+s1]`` and ``template`` (for appropriately defined
         ``s0`` and ``s1``).
     '''
-    template = template.astype(f.dtype, copy=False)
+    # the native code reads the template through a raw pointer
+    template = np.ascontiguousarray(template, dtype=f.dtype)
     if f.ndim != template.ndim:
         raise ValueError('mahotas.template_match: `f` and `template` must have the same number of dimensions')
     output = _get_output(f, out, 'template_match', output=output)
